@@ -213,6 +213,38 @@ func runC14(c *Ctx) {
 		}
 	})
 
+	// every opening of every table, implemented or not (an unimplemented one is consumed):
+	// I and bit 7 of R may change only through ED 47 / ED 4F
+	var allN int64
+	{
+		rig := NewStepRig(uint64(c.Seed) ^ 0xa11)
+		r := mon.NewRng(uint64(c.Seed) ^ 0xC14D)
+		inScope := inScopeKeys()
+		for _, enc := range AllEncodings() {
+			if inScope[enc.Key()] {
+				continue // covered above, with the exact counting rule
+			}
+			for r0 := 0; r0 < 256; r0 += 3 {
+				sc := MakeStepCase(enc, r, r0)
+				sc.Pre.IR.Lo = uint8(r0)
+				o := rig.Run(&sc)
+				allN++
+				pre, post := sc.Pre.IR, o.Post.IR
+				d := (post.Lo - pre.Lo) & 0x7f
+				if o.Bad&BadPanic != 0 {
+					continue // C12
+				}
+				if post.Hi != pre.Hi || post.Lo&0x80 != pre.Lo&0x80 || d < 1 || d > 4 {
+					c.R.Violation("C14/unimplemented-opening/"+enc.String(), map[string]interface{}{
+						"what":  "an encoding other than LD I,A / LD R,A changed I or bit 7 of R, or moved the refresh counter by something that is not a fetch count",
+						"bytes": HexBytes(sc.Bytes), "IR_before": h16(pre.U16()), "IR_after": h16(post.U16()), "A": h8(sc.Pre.AF.Hi)})
+				}
+			}
+		}
+	}
+	c.R.Set("steps_on_unimplemented_openings", allN)
+	evals += allN
+
 	// interrupt acceptance: bit 7 of R and I may not change, and the low seven
 	// bits advance by a small number of fetches (silicon: 1; this project: 0 for
 	// NMI/mode 1/mode 2, 1 for the instruction executed in mode 0) — 0..2 accepted
@@ -276,6 +308,6 @@ func runC14(c *Ctx) {
 	c.R.Set("encodings_covered", int64(len(encs)))
 	c.R.Set("exhaustive", false)
 	c.R.Set("exhaustive_over", "(encoding, starting R) pairs: 930 x 256, each with 5 I values x 2 IFF2 values; other registers sampled")
-	c.R.Set("rule", "all 930 implemented encodings x all 256 starting R x I in {00,7F,80,FF,random} x IFF2 in {0,1}: delta of R's low 7 bits = opcode fetches of the decode table (1 unprefixed, 2 prefixed, 2 or 3 DDCB/FDCB), bit 7 and I unchanged except by LD R,A / LD I,A, LD A,R / LD A,I value and flags by direct formula, plus equality with the reference model's R; then interrupt acceptance (NMI, mode 0 RST/CALL, mode 1, mode 2; all 256 starting R x 8 states each): bit 7 of R and I unchanged, counter moved by 0..2; then multi-Step programs (LDIR/LDDR/CPIR/OTIR/INIR with 1..300 repetitions, 1..300 Steps on HALT) from random R. Every case changes R, so every case is non-trivial; distinct = distinct (encoding, R, I, IFF2) tuples + distinct (kind, length, R) programs")
+	c.R.Set("rule", "all 930 implemented encodings x all 256 starting R x I in {00,7F,80,FF,random} x IFF2 in {0,1}: delta of R's low 7 bits = opcode fetches of the decode table (1 unprefixed, 2 prefixed, 2 or 3 DDCB/FDCB), bit 7 and I unchanged except by LD R,A / LD I,A, LD A,R / LD A,I value and flags by direct formula, plus equality with the reference model's R; then all 856 openings outside the implemented set x 86 starting R (I and bit 7 of R unchanged, counter moved by 1..4); then interrupt acceptance (NMI, mode 0 RST/CALL, mode 1, mode 2; all 256 starting R x 8 states each): bit 7 of R and I unchanged, counter moved by 0..2; then multi-Step programs (LDIR/LDDR/CPIR/OTIR/INIR with 1..300 repetitions, 1..300 Steps on HALT) from random R. Every case changes R, so every case is non-trivial; distinct = distinct (encoding, R, I, IFF2) tuples + distinct (kind, length, R) programs")
 	c.R.Assume("across interrupt acceptance only bit 7 of R, I and a bound of 0..2 fetches are checked (chips and emulators differ on the exact count)")
 }
